@@ -163,6 +163,7 @@ type world struct {
 	lastReads    int        // cache reads of the last controller call
 	queued       []*sentCtx // commands on the stream that the store side has not read yet
 	pendingWorld bool
+	prepareOnly  bool // submitOps only builds and tracks; the caller makes the controller call itself
 	lazy         int  // 0: the stream is read after every call; n: only when n commands are queued
 	broken       bool // a controller call panicked
 	populated    bool // a world with ~100+ regions
